@@ -67,26 +67,26 @@ var strictPolicy = HeapPolicy{Place: "guard_end", Fill: "junk", Move: "always", 
 var comparePolicy = HeapPolicy{Place: "guard_end", Fill: "junk", Move: "always", Reuse: "never", Align: 16, Seed: 7}
 
 type HeapReport struct {
-	Term     string `json:"term"`
-	Events   int64  `json:"events"`
-	Allocs   int64  `json:"allocs"`
-	Frees    int64  `json:"frees"`
-	Resizes  int64  `json:"resizes"`
-	Moved    int64  `json:"moved"`
-	Inplace  int64  `json:"inplace"`
-	Reused   int64  `json:"reused"`
-	Refused  int64  `json:"refused"`
-	RefSize  uint64 `json:"refused_size"`
-	SumNew   int64  `json:"sum_new"`
-	SumOld   int64  `json:"sum_old"`
-	MaxLive  int64  `json:"max_live_bytes"`
-	Slots    int64  `json:"slots"`
-	NLive    int64  `json:"nlive"`
-	Policy   string `json:"policy"`
-	Live     []struct {
-		Block int   `json:"block"`
-		Size  int64 `json:"size"`
-		Event int64 `json:"event"`
+	Term    string `json:"term"`
+	Events  int64  `json:"events"`
+	Allocs  int64  `json:"allocs"`
+	Frees   int64  `json:"frees"`
+	Resizes int64  `json:"resizes"`
+	Moved   int64  `json:"moved"`
+	Inplace int64  `json:"inplace"`
+	Reused  int64  `json:"reused"`
+	Refused int64  `json:"refused"`
+	RefSize uint64 `json:"refused_size"`
+	SumNew  int64  `json:"sum_new"`
+	SumOld  int64  `json:"sum_old"`
+	MaxLive int64  `json:"max_live_bytes"`
+	Slots   int64  `json:"slots"`
+	NLive   int64  `json:"nlive"`
+	Policy  string `json:"policy"`
+	Live    []struct {
+		Block int    `json:"block"`
+		Size  int64  `json:"size"`
+		Event int64  `json:"event"`
 		PC    uint64 `json:"pc"`
 	} `json:"live"`
 	Viol []struct {
